@@ -17,9 +17,10 @@ META = {
         "entries, and sends every word reference through validate_wid whose reject-set is word>=max; (ext-precond) "
         "yada's builder (which panics on an empty key set) is only called under a non-empty check; (sink) every "
         "io::Write result in the build closure is propagated, never dropped; (limits) array/string length limits agree "
-        "with the 1-byte count / 15-bit length encodings. NOT decided: that every accepted CSV loads and analyses; the "
+        "with the 1-byte count / 15-bit length encodings; (axis) word connection ids are validated against the matrix dimension that bounds them at the "
+        "lattice's lookups (finding F15); (ref-space) word references are validated against the table they are resolved in. NOT decided: that every accepted CSV loads and analyses; the "
         "csv crate's behaviour on arbitrary bytes; allocation failure."),
-    "decided": ["no-panic", "resolved-first", "tainted-index", "validate", "ext-precond", "sink", "limits"],
+    "decided": ["no-panic", "resolved-first", "tainted-index", "validate", "ext-precond", "sink", "limits", "ref-space", "axis"],
     "not_decided": ["that every accepted CSV loads and analyses (value-level)", "csv/yada crate internals"],
     "trusted": ["yada::DoubleArrayBuilder::build panics on an empty key set (observed during triage)"],
 }
@@ -159,6 +160,11 @@ def resolved_first(db, ctx):
         if n.get("k") == "Assign" and peel(n["l"]).get("k") == "Field" and peel(n["l"]).get("name") == "resolved" and peel(n["r"]).get("v") is True:
             pcs = path_conditions(n["id"], ri.hir) or []
             ok_arm = any(isinstance(c, tuple) and c[0] == "arm" and (c[2].get("path") or "").split("::")[-1] == "Ok" for c, pol in pcs)
+            # the Ok-side combinators of Result run their closure only for Ok: `res.map(|n| { self.resolved = true; n })`
+            for i_, p_ in enumerate(ps):
+                if p_.get("k") == "MethodCall" and p_.get("method") in ("map", "and_then", "inspect", "is_ok_and") and "Result<" in (p_.get("rty") or "") \
+                        and i_ + 1 < len(ps) and ps[i_ + 1].get("k") == "Closure" and any(peel(a_) is ps[i_ + 1] for a_ in p_["args"]):
+                    ok_arm = True
             not_needed = any(p2 is False and mentions(a2, is_call_to("needs_split_resolution"))
                              for c, pol in pcs if isinstance(c, dict) for a2, p2 in atoms(c, pol))
             after_try = False
@@ -196,6 +202,7 @@ def tainted_index(db, ctx):
     ix = oindex(db)
     n_sites = 0
     for f in _build_fns(db):
+        f = db.view(f, depth=4)
         b = ix.bindings(f)
         for n, ps in _index_sites(f):
             idx = n["i"]
@@ -244,9 +251,10 @@ def _tainted_components(db, f, idx, b, depth=0):
             pty = (f.info.get("inputs") or [])[bd[1]] if bd[1] < len(f.info.get("inputs") or []) else ""
             if pty in INT_TYS and _param_fed_by_parse(db, f, bd[1]):
                 out[name] = lid
-        elif bd[0] == "let" and bd[1] is not None and depth < 4:
+        elif bd[0] == "let" and bd[1] is not None and depth < 10:
             init = bd[1]
-            if mentions(init, lambda x: is_call(x) and path_ends(callee(x), ("parse_i16", "it_next", "parse_u32", "str::parse", "from_str_radix"))):
+            # the initialiser ITSELF parses (not: some let it mentions does — that let is the component then)
+            if any(is_call(x) and path_ends(callee(x), ("parse_i16", "it_next", "parse_u32", "str::parse", "from_str_radix")) for x, _ in walk(init)):
                 out[name] = lid
             else:
                 out.update(_tainted_components(db, f, init, b, depth + 1))
@@ -269,7 +277,7 @@ def _param_fed_by_parse(db, f, i):
                       "rejects a negative right_id of an indexed entry, and sends dic_form/splits/word_structure through "
                       "validate_wid, whose reject-set is word>=max")
 def validate(db, ctx):
-    f = db.one("validate_entries", "LexiconReader")
+    f = db.view(db.one("validate_entries", "LexiconReader"), keep=("validate_wid",))
     for fld, bound in (("left_id", "max_left"), ("right_id", "max_right")):
         isb = lambda x, bound=bound: isinstance(x, dict) and x.get("k") == "Field" and x.get("name") == bound
         isv = lambda x, fld=fld: mentions(x, lambda y: y.get("k") == "Field" and y.get("name") == fld)
@@ -499,7 +507,7 @@ def ref_space(db, ctx):
            "WordInfos::get_word_info resolves dictionary_form_word_id with self.parse_word_info(..) — i.e. inside the word's own lexicon: %s" % same_lexicon, fn=rd)
     if not same_lexicon:
         return
-    f = db.one("validate_entries", "LexiconReader")
+    f = db.view(db.one("validate_entries", "LexiconReader"), keep=("validate_wid",))
     found = False
     for c, ps in walk(f.hir):
         if is_call(c) and path_ends(callee(c), "validate_wid") and mentions(c, lambda y: y.get("k") == "Field" and y.get("name") == "dic_form"):
@@ -545,3 +553,43 @@ def sink_buffered(db, ctx):
                            "" if flushed else " — BufWriter's Drop ignores io errors, so a sink failure while flushing the tail would be reported as success"),
                        fn=f, site=c.get("sp"))
     ctx.ob("buffering-writers-in-build", True, "%d buffering writers constructed in dic::build" % n, nontrivial=False)
+
+
+@rule("C06.axis", "a word's left / right connection id is validated by the compiler against the matrix dimension that bounds it at the lattice's "
+                  "matrix lookups (left id < num_right, right id < num_left: see C20.axis), not merely against the homonymous one")
+def axis(db, ctx):
+    from .C20 import node_id_axes
+    nax, sites = node_id_axes(db)
+    lr = db.one("set_max_conn_sizes", "LexiconReader")
+    bd = oindex(db).bindings(lr)
+    stored = {}
+    for n, _ in walk(lr.hir):
+        if n.get("k") == "Assign" and peel(n["l"]).get("k") == "Field":
+            r = peel_casts(n["r"])
+            if r.get("k") == "Path" and r.get("res") == "local" and bd.get(r["lid"], ("",))[0] == "param":
+                stored[peel(n["l"])["name"]] = bd[r["lid"]][1]
+    dims = {}
+    for cf, cn in oindex(db).callsites.get(lr.key, []):
+        if "::test" in cf.key:
+            continue
+        args = call_args(cn)
+        for fld, i in stored.items():
+            if i < len(args):
+                for o in origins(db, cf, args[i], depth=0):
+                    if o[0] == "call":
+                        nm = short_path(o[1]).split("::")[-1]
+                        if nm in ("num_left", "left"):
+                            dims.setdefault(fld, set()).add("num_left")
+                        if nm in ("num_right", "right"):
+                            dims.setdefault(fld, set()).add("num_right")
+    for fld, bound in (("left_id", "max_left"), ("right_id", "max_right")):
+        validated = dims.get(bound, set())
+        required = nax.get(fld[:-3], set())
+        ok = bool(validated) and validated == required
+        ctx.ob("validate_entries|%s|axis" % fld, ok,
+               "RawLexiconEntry.%s is compared with self.%s, which the builders set from %s; at the lattice's matrix lookups a word's %s is bounded "
+               "by %s%s" % (fld, bound, sorted(validated), fld.replace("_", " "), sorted(required),
+                            "" if ok else " — the OTHER axis: with a non-square matrix a word with an id in [%s, %s) compiles and indexes outside the matrix"
+                            % tuple(sorted(validated | required)) if len(validated | required) == 2 else ""),
+               sig="required=%s;validated=%s" % (sorted(required), sorted(validated)))
+    ctx.floor(2)
